@@ -45,8 +45,11 @@ func verifyAuthorizedKeys(user *user.User, authorizedKeysBytes []byte,
 	for len(authorizedKeysBytes) > 0 {
 		authorizedPubKey, _, _, restBytes, err := gossh.ParseAuthorizedKey(authorizedKeysBytes)
 		if err != nil {
-			return nil, fmt.Errorf("unable to parse authorized keys bytes|%s|%s",
-				user, err.Error())
+			// ParseAuthorizedKey skips comments, blank and unparsable lines by itself
+			// and only fails when the rest of the file holds no further key: that is
+			// the end of the key list (e.g. trailing comment/blank lines), not an error.
+			dlog.Server.Debug(user, "No further authorized keys", err)
+			break
 		}
 		authorizedKeysMap[string(authorizedPubKey.Marshal())] = true
 		authorizedKeysBytes = restBytes
